@@ -529,7 +529,20 @@ func checkC16(w *World, r *Report) {
 				if !ok || len(ret.Results) != 1 {
 					continue
 				}
-				here := intForm || pcImplies(sym.PathCond(g.Blocks[0], b, nil), isSplitLenOne, func(env map[string]bool) bool { return env["intform"] }) == ""
+				sawCut := false
+				here := intForm || pcImplies(sym.PathCond(g.Blocks[0], b, nil), func(a *pcAtom) string {
+					if n := isSplitLenOne(a); n != "" {
+						return n
+					}
+					// strings.Cut(s, "."): no point found
+					if ex, isEx := a.v.(*ssa.Extract); isEx && ex.Index == 2 {
+						if c, isC := ex.Tuple.(*ssa.Call); isC && c.Call.StaticCallee() != nil && c.Call.StaticCallee().String() == "strings.Cut" {
+							sawCut = true
+							return "point"
+						}
+					}
+					return ""
+				}, func(env map[string]bool) bool { return env["intform"] || (sawCut && !env["point"]) }) == ""
 				if c, isC := unspill(ret.Results[0]).(*ssa.Call); isC && depth < 2 {
 					if h := c.Call.StaticCallee(); h != nil && h.Blocks != nil && h.Pkg == g.Pkg && len(limitCmp) < 4 {
 						exits(h, here, depth+1)
